@@ -98,7 +98,12 @@ class OnePass:
             self.tcp._thread_closed = True
 
     def __exit__(self, *a):
+        # the decision phase is over, the send phase has not begun: an atomic-step boundary of the outgoing thread
+        if self.n == 1 and self.on_exit is not None:
+            self.on_exit()
         return False
+
+    on_exit = None
 
 
 class DecRecorder(BoboDeciderSubscriber):
@@ -226,18 +231,30 @@ class Inst:
             self.engine.update()
         raise RuntimeError('engine did not settle')
 
-    def outgoing_pass(self):
+    def outgoing_pass(self, inject=None):
+        """one iteration of the real outgoing loop.  `inject` maps an atomic-step boundary of the outgoing thread
+        ('lock' = after the decision phase, 'send:<peer>' = while the send to <peer> is in progress) to a callable
+        run there, i.e. what another thread (incoming handler, engine) does at that point of the interleaving."""
         t = self.tcp
         t._thread_closed = False
-        t._lock_in_out = OnePass(t)
-        t._tcp_outgoing()
-        t._thread_closed = False
+        lock = OnePass(t)
+        self.inject = dict(inject or {})
+        lock.on_exit = self.inject.get('lock')
+        t._lock_in_out = lock
+        try:
+            t._tcp_outgoing()
+        finally:
+            t._thread_closed = False
+            self.inject = {}
 
     def _send(self, d, msg_type, msg_flags, msg_str):
         mydev = self.tcp._devices[self.name]
         plain = '{} {} {} {} {}'.format(mydev.urn, mydev.id_key, msg_type, msg_flags, msg_str)
         data = bytes(self.tcp._crypto.encrypt(plain))
         err = self.net.transmit(self.name, d.urn, data, msg_type, msg_flags)
+        hook = getattr(self, 'inject', {}).get('send:' + d.urn)
+        if hook is not None:
+            hook()          # another thread runs while this send is in progress
         self.wire_log.append((self.clock.t, d.urn, TYPE_NAMES.get(msg_type, msg_type), msg_flags, err))
         return err
 
